@@ -46,6 +46,7 @@ type interpreter struct {
 	frozen             map[*value]bool
 	frozenMaps         map[*omap]bool
 	frozenWrites       []string
+	lockAccs           map[interface{}]*lockAcc
 	fninfo             map[*ssa.Function]*fnInfo
 	initOK             func(pkgPath string) bool
 	cfg                *Config
